@@ -15,8 +15,8 @@ import (
 	sdk "github.com/cosmos/cosmos-sdk/types"
 	"github.com/ethereum/go-ethereum/common"
 	goatcrypto "github.com/goatnetwork/goat/pkg/crypto"
-	relayertypes "github.com/goatnetwork/goat/x/relayer/types"
 	"github.com/goatnetwork/goat/verifsim/simrt"
+	relayertypes "github.com/goatnetwork/goat/x/relayer/types"
 	blst "github.com/supranational/blst/bindings/go"
 )
 
